@@ -630,6 +630,8 @@ def run_base(mon: Monitor, base: Base, other: Base | None, ctx, families=None):
             ks = J.load().KeySet([J.load().key(other_same[0])])
             mon.judge(base, "other-key", "same-kid-keyset-after-success", base.token, ks, resolver=ref_resolver(other_same),
                       allow=allow, ep_name=ep_name, ep=ep, detached=base.detached)
+            # one KeySet object whose key is replaced in place after it verified the token (a rotation: same length, same kid or a new one):
+            # the token of the retired key is not accepted any more
     # RFC 7797 compact with the payload attached *and* handed over by the caller
     if base.form == "c7797" and base.token.split(".")[1] != "":
         j = J.load()
@@ -864,6 +866,33 @@ def rsa_leading_zero_signature(mon: Monitor, ctx, alg):
         mon.judge(bj, "rsa-signature-length", "leading-zero-octet-cut/json", fj, jkey, resolver, [alg, "none"], ep_name, ep)
 
 
+def keyset_rotation_cases(mon: Monitor, ctx):
+    """one KeySet object verifies a token naming a kid; then the key under that kid is replaced in place in `keys` (a rotation: the list keeps its
+    length; the new key takes over the kid, or brings a new one): the token of the retired key is rejected from then on - through every entry point"""
+    j = J.load()
+    payload = b'{"sub":"c01 rotation"}'
+    for alg in ("HS256", "ES256", "RS256", "EdDSA:Ed25519"):
+        old = {**key_for(alg), "kid": "current"}
+        new_same = {**key_for(alg, avoid=old), "kid": "current"}
+        new_other = {**key_for(alg, avoid=old), "kid": "next"}
+        decoy = {**gen.new_oct(384), "kid": "decoy"}
+        a = alg_name(alg)
+        for form in ("compact", "flat"):
+            base = make_compact(alg, old, payload, {"kid": "current"}) if form == "compact" else make_json("flat", [(alg, old, "protected")], payload)
+            eps = [e for e in entry_points(base) if not e[0].startswith("rfc7797")]
+            for ep_name, ep in eps:
+                for nth_lookup in (1, 3):
+                    ks = j.KeySet([j.key(decoy), j.key(gen.public_jwk(old) if old["kty"] != "oct" else old)])
+                    for _ in range(nth_lookup):
+                        mon.judge(base, "valid", "kid-on-key-in-a-set", base.token, ks, ref_resolver([gen.public_jwk(old)]), [a], ep_name, ep, expect_reject=False)
+                    ctx.count("keysets_with_a_key_replaced_in_place")
+                    for label, newkey in (("same-kid", new_same), ("new-kid", new_other)):
+                        pubn = gen.public_jwk(newkey) if newkey["kty"] != "oct" else newkey
+                        ks.keys[1] = j.key(pubn)
+                        mon.judge(base, "other-key", f"key-replaced-in-place-{label}", base.token, ks, resolver=ref_resolver([gen.public_jwk(newkey)]), allow=[a],
+                                  ep_name=ep_name, ep=ep)
+
+
 def crit_nonstrict_cases(mon: Monitor, ctx):
     """RFC 7797 token (b64:false, crit) whose payload text is itself base64url, offered to the plain RFC 7515 entry points
     configured with strict_check_header=False: the signed payload is the text, so returning the decoded octets would be wrong."""
@@ -923,6 +952,7 @@ def plan(tier):
     items.append(("mixed", "general3", 1))
     items.append(("confusion", "", 0))
     items.append(("crit-nonstrict", "", 0))
+    items.append(("keyset-rotation", "", 0))
     items.append(("many-signatures", "", 0))
     items.append(("long-run", "", 0))
     for a in ("PS256", "RS256", "PS512", "PS384"):
@@ -987,6 +1017,9 @@ def run_shard(ctx):
             continue
         if alg == "crit-nonstrict":
             crit_nonstrict_cases(mon, ctx)
+            continue
+        if alg == "keyset-rotation":
+            keyset_rotation_cases(mon, ctx)
             continue
         if alg == "many-signatures":
             many_signatures_cases(mon, ctx)
